@@ -37,12 +37,17 @@ def gen(rnd):
     feature = rnd.choice(["none", "none", "offdiag", "offdiag", "offdiag-unknown", "zero-diagonal", "fd-blocks", "fd-dict-ok", "fd-asymmetric", "fd-not-array",
                           "fd-degenerate", "fd-bare", "not-orthonormal", "pairs", "custom-solver", "custom-solver+fd", "legacy-solver",
                           "shared-eigenvalue", "shared-eigenvalue-rounding", "nonhermitian-symbolic-term", "implicit-fd-last", "kpm-nonhermitian",
-                          "shared-eigenvalue-second-order", "fd-dict-multi", "fd-dict-multi", "nonhermitian-symbolic-term-2nd-quant"])
+                          "shared-eigenvalue-second-order", "fd-dict-multi", "fd-dict-multi", "nonhermitian-symbolic-term-2nd-quant", "not-orthonormal-across-subspaces"])
     cfg["feature"] = feature
     if feature == "shared-eigenvalue-second-order":
         # two blocks that share an energy and are coupled only through a third one: their coupling first appears at second order
         cfg["sizes"] = sizes = [rnd.randint(1, 2) for _ in range(3)]; N = 3
         if desig == "implicit": cfg["designation"] = "indices"
+    if feature == "not-orthonormal-across-subspaces":
+        # every subspace orthonormal by itself, a vector of one with a component along a zero-energy vector of another: H_0 still looks block diagonal
+        if N < 2: cfg["sizes"] = sizes = [1, 2]; N = 2
+        if carrier == "sympy": cfg["carrier"] = carrier = "dense"
+        cfg["designation"] = desig = "vectors"
     if feature == "nonhermitian-symbolic-term-2nd-quant":
         # a c-number term that is not Hermitian on top of a second-quantised H_0 (Hermitian mode): still not a Hermitian input
         cfg["carrier"] = carrier = "sympy"; cfg["designation"] = desig = "indices"; cfg["hermitian"] = herm = True
@@ -87,6 +92,7 @@ def build(cfg, rnd):
         a, b = off[0], off[1]; H0[a, a] = 0.1 + 0.2; H0[b, b] = 0.3; H1[a, b] = H1[b, a] = 1.0; late = "shared"
         for c in range(d):
             if c not in (a, b) and abs(H0[c, c] - 0.3) < 1: H0[c, c] += 5
+    if feature == "not-orthonormal-across-subspaces": H0[off[1], off[1]] = 0.0
     if feature == "shared-eigenvalue-second-order":
         a, m_, b = off[0], off[1], off[2]; H0[b, b] = H0[a, a]
         for i in range(off[0], off[1]):
@@ -146,6 +152,9 @@ def build(cfg, rnd):
         if feature == "pairs": use = [(v, v.copy()) for v in use]; facts["pair_form"] = True
         if feature == "not-orthonormal":
             use = list(use); use[0] = (use[0][0] * 1.5, use[0][1]) if isinstance(use[0], tuple) else use[0] * 1.5; facts["biorthonormal"] = False
+        if feature == "not-orthonormal-across-subspaces":
+            use = [np.array(u, dtype=float) for u in use]; b0 = off[1]                        # first state of the second subspace, given zero energy
+            v = use[0][:, 0] + 0.6 * eye[:, b0]; use[0][:, 0] = v / np.linalg.norm(v); facts["biorthonormal"] = False
         kw["subspace_eigenvectors"] = use
         if desig == "implicit":
             if feature == "implicit-fd-last": kw["fully_diagonalize"] = (N - 1,); facts["fd"] = {"kind": "blocks", "blocks": [N - 1]}
